@@ -112,7 +112,7 @@ def run(ctx):
             m['args'] = a
             m['out'] = os.path.join(m['dir'], 'out_bad_%d' % j)
             bad_metas.append(m)
-        stm = cli.compare_with_model(ctx, ctx.bdir, metas + bad_metas)
+        stm = cli.compare_with_model(ctx, ctx.bdir, metas + bad_metas, check_created=False)      # what an aborting run leaves behind is C15's subject
         n_eval += stm['cases']
         keys.add(('cli-model', 'abort'))
     ctx.oracle.update({'evaluations': n_eval, 'distinct_nontrivial': len(keys), 'adjacency_layouts': styles, 'binary_runs': stats,
